@@ -22,8 +22,9 @@ EXPLANATION = (
     "count on every path; `max != 0 and count >= max` false is a must-hold fact at every retry call; policy arms "
     "are identified by their guard facts; the buffer kernel's three arms are identified by guard facts and the "
     "failing arm neither refetches nor moves the fetch position."
+    ' Also: configuration attributes hold what the constructor was given (R6, value origins), and the start Deferred is failed only in the limit arm or the out-of-range-without-policy arm (R3).'
 )
-SHARED = [('C12', ['R7'], 'the too-small arm grows the buffer and does not move the fetch position (never skipping the message)'), ('C02', ['R6'], 'what may be stored in the fetch position: the reset policy is applied as resolved by the broker')]
+SHARED = [('C12', ['R5'], 'a message larger than the fetch buffer surfaces as the too-small signal (fields are taken through the checked readers), so the buffer grows'), ('C12', ['R7'], 'the too-small arm grows the buffer and does not move the fetch position (never skipping the message)'), ('C02', ['R6'], 'what may be stored in the fetch position: the reset policy is applied as resolved by the broker')]
 ASSUMPTIONS = ["float arithmetic: x*F >= x for x >= 0 and F > 1", "reactor.callLater(delay, f) calls f once after delay"]
 CONS = "consumer:Consumer"
 
@@ -242,40 +243,61 @@ def run(ctx):
             "earliest/latest are not resolved through an offset request carrying that constant", where(dof, dof.node))
     co = ctx.cfg(hor)
     fo = ctx.facts(hor)
-    lat = [n for n in co.nodes if norm(node_assign_value(n, "_fetch_offset") or ast.Constant(value=0)) == "OFFSET_LATEST"]
-    ear = [n for n in co.nodes if norm(node_assign_value(n, "_fetch_offset") or ast.Constant(value=0)) == "OFFSET_EARLIEST"]
-    ok = (len(lat) == 1 and len(ear) == 1 and ("self.auto_offset_reset == OFFSET_LATEST", True) in fo[lat[0].id]
-          and ("self.auto_offset_reset == OFFSET_LATEST", False) in fo[ear[0].id]
-          and any(t.endswith(".offset == OFFSET_NOT_COMMITTED") and p for t, p in fo[lat[0].id])
-          and any(t.endswith(".offset == OFFSET_NOT_COMMITTED") and p for t, p in fo[ear[0].id]))
+    # every value the fetch position can be given here, case by case (through copies and conditional expressions), with
+    # the facts holding where that value was chosen
+    pos_cases = []
+    for n in co.nodes:
+        v_ = node_assign_value(n, "_fetch_offset")
+        if v_ is None:
+            continue
+        for dn_, e_ in (value_origins(co, n.id, v_, params=hor.params) or [(n.id, v_)]):
+            for f_, e2 in value_cases(ctx, hor, co.nodes[dn_], e_):
+                pos_cases.append((frozenset(f_) | frozenset(fo[n.id]), e2))
+    lat = [f_ for f_, e_ in pos_cases if norm(e_) == "OFFSET_LATEST"]
+    ear = [f_ for f_, e_ in pos_cases if norm(e_) == "OFFSET_EARLIEST"]
+    ok = (len(lat) == 1 and len(ear) == 1 and ("self.auto_offset_reset == OFFSET_LATEST", True) in lat[0]
+          and ("self.auto_offset_reset == OFFSET_LATEST", False) in ear[0]
+          and any(t.endswith(".offset == OFFSET_NOT_COMMITTED") and p for t, p in resolved_facts(lat[0]) | set(lat[0]))
+          and any(t.endswith(".offset == OFFSET_NOT_COMMITTED") and p for t, p in resolved_facts(ear[0]) | set(ear[0])))
     r.check(ok, "%s#not-committed-policy" % hor.qname, "no stored offset: latest iff the policy is latest, else earliest "
             "is not what the code does", where(hor, hor.node))
 
-    # ---- R7 a reply that fails while it is being handled (decode error) is a failed fetch, whichever way it got there
-    r = ctx.rule("R7", "every chain that hands a fetch reply to the reply handler has the fetch error handler on its failure side", 2, "C")
+    # ---- R7 a reply that fails while it is being handled (decode error, a reply without the expected content) is a failed
+    # request, whichever way it got there
+    r = ctx.rule("R7", "every chain that hands a fetch/offset reply to its reply handler has the matching error handler on its failure side", 3, "C")
     ci_ = prog.cls(CONS)
-    n_h = 0
+    n_h = {"fetch": 0, "offset": 0}
     for f in sorted([x for x in prog.funcs.values() if x.cls is ci_], key=lambda x: x.qname):
         regs = registrations(f, prog)
+        cf_ = ctx.cfg(f)
         for i, g in enumerate(regs):
             if g["cb"] is None:
                 continue
             h = prog.resolve_callable(f, g["cb"])
-            direct = h is hfr
-            via = h is not None and h is not hfr and (h.parent is f or isinstance(g["cb"], ast.Lambda)) and any(
-                prog.resolve_call(h, c) is hfr for c in calls_in(h))
-            if not (direct or via):
-                continue
-            n_h += 1
-            later = [x for x in regs[i:] if x["root"] == g["root"] and x["eb"] is not None and (x is not g or g["kind"] in ("cbs", "both"))]
-            # addCallbacks(cb, eb) does not put eb behind cb: only a later stage catches what cb raises
-            later = [x for x in later if not (x is g and g["kind"] == "cbs")]
-            ok_ = any(prog.resolve_callable(f, x["eb"]) is hfe for x in later)
-            r.check(ok_, "%s#reply-failure-handled[%s]" % (f.qname, g["root"]),
-                    "the reply handler is registered on `%s` without the fetch error handler behind it" % g["root"], where(f, g["call"]),
-                    "a reply parked behind a busy processor whose message set then fails to decode (bad checksum): the exception ends in "
-                    "the block Deferred's chain - no retry, no failure of start(), no request outstanding: the consumer stalls")
-    need(n_h >= 2, "registrations of the fetch reply handler not found")
+            for what_, hr_, he_ in (("fetch", hfr, hfe), ("offset", hor, hoe)):
+                direct = h is hr_
+                via = h is not None and h is not hr_ and (h.parent is f or isinstance(g["cb"], ast.Lambda)) and any(
+                    prog.resolve_call(h, c) is hr_ for c in calls_in(h))
+                if not (direct or via):
+                    continue
+                n_h[what_] += 1
+                # addCallbacks(cb, eb) does not put eb behind cb: only a later stage catches what cb raises
+                later = [x for x in regs[i + 1:] if x["root"] == g["root"] and x["eb"] is not None and prog.resolve_callable(f, x["eb"]) is he_]
+                if g["kind"] == "both" and prog.resolve_callable(f, g["eb"]) is he_:
+                    later = []  # the reply handler and the error handler side by side: nothing behind the reply handler
+                here = cf_.containing(g["call"])
+                same_stmt = [x for x in later if here and cf_.containing(x["call"]) and cf_.containing(x["call"])[0].id == here[0].id]
+                behind = [cf_.containing(x["call"])[0].id for x in later if cf_.containing(x["call"])]
+                # ... on every path from the registration to the end of the function (the arms of _do_fetch share one handle)
+                ok_ = bool(same_stmt) or (bool(here) and bool(behind) and not cf_.normal_exits_from(here[0].id, avoid=behind))
+                r.check(ok_, "%s#reply-failure-handled[%s%s]" % (f.qname, g["root"], "" if what_ == "fetch" else ":" + what_),
+                        "the %s reply handler is registered on `%s` without the %s error handler behind it" % (what_, g["root"], what_), where(f, g["call"]),
+                        "a reply parked behind a busy processor whose message set then fails to decode (bad checksum): the exception ends in "
+                        "the block Deferred's chain - no retry, no failure of start(), no request outstanding: the consumer stalls" if what_ == "fetch" else
+                        "an offset reply without offsets (or any other exception in the reply handler): no retry, no failure of start(): "
+                        "the consumer sits idle for good")
+    need(n_h["fetch"] >= 2, "registrations of the fetch reply handler not found")
+    need(n_h["offset"] >= 1, "registrations of the offset reply handler not found")
 
     # ---- R5 buffer kernel
     buffer_kernel(ctx, ctx.rule("R5", "buffer growth: x16 up to 1 MiB else x2; capped by max; fails only at the cap; refetches", 5, "E"))
@@ -342,6 +364,13 @@ def buffer_kernel(ctx, r):
 
 
 MUTANTS = [
+    {"id": "offset-handlers-side-by-side", "file": "consumer.py",
+     "old": "            d.addCallback(self._handle_offset_response)\n            d.addErrback(self._handle_offset_error)\n        elif self._fetch_offset == OFFSET_COMMITTED:",
+     "new": "            d.addCallbacks(self._handle_offset_response, self._handle_offset_error)\n        elif self._fetch_offset == OFFSET_COMMITTED:", "expect": "C14.R7", "note": "finding F45"},
+    {"id": "committed-offset-handlers-side-by-side", "file": "consumer.py",
+     "old": "            d.addCallback(self._handle_offset_response)\n            d.addErrback(self._handle_offset_error)\n        else:",
+     "new": "            d.addCallbacks(self._handle_offset_response, self._handle_offset_error)\n        else:", "expect": "C14.R7",
+     "note": "finding F45, the other arm: the first arm's error handler does not stand behind this one"},
     {"id": "parked-reply-without-error-handler", "file": "consumer.py",
      "old": "            self._msg_block_d.addErrback(self._handle_fetch_error)\n", "new": "", "expect": "C14.R7", "note": "finding F33"},
 
@@ -395,6 +424,14 @@ MUTANTS = [
      "new": "            elif self.max_buffer_size is not None and self.buffer_size * 16 < self.max_buffer_size:", "expect": "C14.R5"},
 ]
 TWINS = [
+    {"id": "offset-handlers-fluent", "file": "consumer.py",
+     "old": "            d.addCallback(self._handle_offset_response)\n            d.addErrback(self._handle_offset_error)\n        else:",
+     "new": "            d.addCallback(self._handle_offset_response).addErrback(self._handle_offset_error)\n        else:",
+     "note": "one fluent statement"},
+    {"id": "offset-error-handler-twice", "file": "consumer.py",
+     "old": "            d.addCallback(self._handle_offset_response)\n            d.addErrback(self._handle_offset_error)\n        else:",
+     "new": "            d.addCallbacks(self._handle_offset_response, self._handle_offset_error)\n            d.addErrback(self._handle_offset_error)\n        else:",
+     "note": "side by side AND behind: a failed request is retried by the first, a failed handler by the second"},
     {"id": "min-args-swapped", "file": "consumer.py",
      "old": "self.retry_delay = min(self.retry_delay * REQUEST_RETRY_FACTOR, self.retry_max_delay)",
      "new": "self.retry_delay = min(self.retry_max_delay, REQUEST_RETRY_FACTOR * self.retry_delay)"},
